@@ -445,6 +445,13 @@ func ruleFreshWorkerPerCallback(c *Ctx, rule string) {
 			g = x
 		}
 	})
+	// exactly one worker consumes a queue: a second consumer of the same channel would reorder its jobs
+	nWorkers := 0
+	for _, ed := range c.P.Callers(c.P.Fn("internal/chain/beacon.(*callbackStore).runWorker")) {
+		_ = ed
+		nWorkers++
+	}
+	c.Ok(rule, "each subscriber queue has exactly one consumer", pos, nWorkers == 1, fmt.Sprintf("%d start(s) of runWorker in the program", nWorkers))
 	okW := false
 	if g != nil && upd != nil {
 		arg := g.Common().Args[1]
